@@ -679,4 +679,41 @@ theorem SReach.toF {L : Nat} {p : Pool} (h : SReach L p) : SReachF L p := by
   | ok _ hpre hrun ih => exact .ok ih hpre hrun
   | thrown _ hpre hrun ih => exact .thrown ih hpre hrun
 
+/-! ### the fault really fires (for the non-vacuity example of C19) -/
+
+/-- `allocate(n)` with `n` beyond the in-object capacity throws when its allocation is the scheduled one -/
+theorem allocate_throws {p : Pool} (hI : Inv p) {o : Nat} (ho : alive p o) {n : Nat} (hn : p.L ≤ n)
+    (hf : p.failAt = some (p.allocs + 1)) : ∃ p', allocate o n p = .throw .badAlloc p' := by
+  obtain ⟨b, hb⟩ := ho
+  obtain ⟨p1, h1, s1, hal, _⟩ := allocateReset_spec hI hb
+  obtain ⟨p', h2, _⟩ := allocateTail_long_throw s1.inv (o := o) (n := n) (by rw [s1.L]; exact hn)
+    (by rw [s1.failAt, hal]; exact hf) (· = o)
+  rw [s1.L] at h2
+  exact ⟨p', by rw [allocate_phases]; simp only [bind_apply, h1, h2]⟩
+
+/-- a long fresh result whose allocation is the scheduled one: `bad_alloc`, nothing changed -/
+theorem fresh_throws {p : Pool} (hI : Inv p) {d : Nat} (hd : p.objs d = none) {val : List Nat} (hn : p.L ≤ val.length)
+    (hf : p.failAt = some (p.allocs + 1)) : BadUnch (fresh d val p) p := by
+  rcases fresh_f hI hd val with ⟨p', h, _⟩ | h
+  · exfalso
+    obtain ⟨p1, h1, s1, a1⟩ := ctorDefault_f hI hd
+    have hal : p1.allocs = p.allocs := by
+      simp only [ctorDefault, bind_apply, getP_apply, setObj_eq] at h1; cases h1; rfl
+    obtain ⟨p2, h2⟩ := allocate_throws s1.inv a1 (n := val.length) (by rw [s1.L]; exact hn) (by rw [s1.failAt, hal]; exact hf)
+    simp only [fresh, ctorThen, bind_apply, h1, h2] at h
+    split at h <;> cases h
+  · exact h
+
+theorem concatInto_eq {p : Pool} (hI : Inv p) {d l r : Nat} {bl br : Buf} (hl : p.objs l = some bl) (hr : p.objs r = some br) :
+    concatInto d l r p = (fresh tmpA (units p bl ++ units p br) >>= fun _ => withTemp tmpA (ctorMove d tmpA)) p := by
+  simp [concatInto, getObj_some hl, getObj_some hr, read_units hI hl, read_units hI hr]
+
+/-- `o += s` whose concatenation does not fit the in-object array, with the next allocation scheduled to fail:
+    `bad_alloc` reaches the caller and nothing has changed -/
+theorem appendStr_throws {p : Pool} (hI : Inv p) {o s : Nat} {bo bs : Buf} (ho : p.objs o = some bo) (hs : p.objs s = some bs)
+    (hA : p.objs tmpA = none) (hn : p.L ≤ (units p bo ++ units p bs).length) (hf : p.failAt = some (p.allocs + 1)) :
+    BadUnch (appendStr o s p) p := by
+  obtain ⟨p', h1, rest⟩ := fresh_throws hI hA hn hf
+  exact ⟨p', by simp [appendStr, concatInto_eq hI ho hs, h1], rest⟩
+
 end StVerif.StrPool
